@@ -136,6 +136,15 @@ def scope(model, family: str, schema_id: str, size: int, **over) -> dict:
                 "widget": [{"id": 7}, {"id": "w", "cfg": {"deep": [1, {"k": "v"}]}}],
             },
         }
+    elif family == "fgen":
+        s = {
+            "types": ["doc", "A", "B", "T", "L", "R", "text", "br"],
+            "texts": ["a"],
+            "marksets": _ms(model, [], [EM]),
+            "attrs": {"R": [{"x": 1}]},
+            "max_children": 2,
+            "max_depth": 4,
+        }
     else:
         raise KeyError(family)
     s["types"] = [t for t in s["types"] if t in T]
